@@ -272,9 +272,59 @@ async fn rpc_pairing(a: &Value) -> Value {
     json!({"n": n, "mismatched": mismatched, "errors": errors, "max_handler_invocations_per_request": max_calls, "requests_handled": handled})
 }
 
+fn ev(e: &anemo::types::PeerEvent) -> Value {
+    match e {
+        anemo::types::PeerEvent::NewPeer(p) => json!({"new": p.0[0]}),
+        anemo::types::PeerEvent::LostPeer(p, r) => json!({"lost": p.0[0], "reason": format!("{r:?}")}),
+    }
+}
+/// C03 / C04 / C09 on real networks: a scripted history on node A (key 1) with peers B (2), C (3), impostor-free.
+/// Reports dial results, the event stream of A from a subscription taken at the start, listings, and RPC reachability.
+async fn history(args: &Value) -> Value {
+    let swap = args.get("swap").and_then(|x| x.as_bool()).unwrap_or(false);
+    let (ka, kb) = if swap { (2, 1) } else { (1, 2) };
+    let a = network(ka, None); let b = network(kb, None); let c = network(3, None);
+    let (mut rx, snapshot) = a.subscribe().expect("subscribe");
+    let mut steps = Vec::new();
+    // 1. A dials B naming B
+    let r1 = a.connect_with_peer_id(b.local_addr(), b.peer_id()).await;
+    steps.push(json!({"step": "A dials B naming B", "ok": r1.is_ok(), "returned_is_b": r1.as_ref().ok() == Some(&b.peer_id()), "a_lists_b_on_return": a.peers().contains(&b.peer_id())}));
+    // 2. A dials C's address naming B: must fail, nobody lists anybody because of it
+    let r2 = a.connect_with_peer_id(c.local_addr(), b.peer_id()).await;
+    tokio::time::sleep(Duration::from_millis(50)).await;
+    steps.push(json!({"step": "A dials C's address naming B", "ok": r2.is_ok(), "a_lists_c": a.peers().contains(&c.peer_id()), "c_lists_a": c.peers().contains(&a.peer_id())}));
+    // 3. A dials C without naming anyone: returns C's identity
+    let r3 = a.connect(c.local_addr()).await;
+    steps.push(json!({"step": "A dials C unnamed", "ok": r3.is_ok(), "returned_is_c": r3.as_ref().ok() == Some(&c.peer_id()), "a_lists_c_on_return": a.peers().contains(&c.peer_id())}));
+    // 4. B dials A while A->B exists (replacement or rejection by tie-break): both still list each other exactly once, RPC works both ways
+    let r4 = b.connect_with_peer_id(a.local_addr(), a.peer_id()).await;
+    // let the loser's close propagate, then both directions must work (poll up to 3 s: quiescence, not a fixed delay)
+    let (mut ab, mut ba) = (false, false);
+    for _ in 0..60 {
+        tokio::time::sleep(Duration::from_millis(50)).await;
+        ab = a.rpc(b.peer_id(), Request::new(Bytes::from_static(b"x"))).await.is_ok();
+        ba = b.rpc(a.peer_id(), Request::new(Bytes::from_static(b"x"))).await.is_ok();
+        if ab && ba && a.peers().iter().filter(|p| **p == b.peer_id()).count() == 1 && b.peers().iter().filter(|p| **p == a.peer_id()).count() == 1 { break; }
+    }
+    steps.push(json!({"step": "B dials A (mutual)", "ok": r4.is_ok(), "a_lists_b": a.peers().iter().filter(|p| **p == b.peer_id()).count(), "b_lists_a": b.peers().iter().filter(|p| **p == a.peer_id()).count(), "rpc_a_to_b": ab, "rpc_b_to_a": ba}));
+    // 5. A disconnects C explicitly
+    let r5 = a.disconnect(c.peer_id());
+    let listed_after = a.peers().contains(&c.peer_id());
+    let rpc_after = a.rpc(c.peer_id(), Request::new(Bytes::from_static(b"x"))).await.is_ok();
+    let mut c_saw_loss = false;
+    for _ in 0..300 { if !c.peers().contains(&a.peer_id()) { c_saw_loss = true; break; } tokio::time::sleep(Duration::from_millis(10)).await; }
+    steps.push(json!({"step": "A disconnects C", "ok": r5.is_ok(), "a_lists_c_after": listed_after, "rpc_to_c_after": rpc_after, "c_reports_a_lost": c_saw_loss}));
+    tokio::time::sleep(Duration::from_millis(250)).await;
+    let mut events = Vec::new();
+    while let Ok(e) = rx.try_recv() { events.push(ev(&e)); }
+    let mut listing: Vec<u8> = a.peers().iter().map(|p| p.0[0]).collect(); listing.sort();
+    let ids = json!({"a": a.peer_id().0[0], "b": b.peer_id().0[0], "c": c.peer_id().0[0]});
+    json!({"ids": ids, "snapshot": snapshot.iter().map(|p| p.0[0]).collect::<Vec<u8>>(), "steps": steps, "events_on_a": events, "final_listing_on_a": listing})
+}
+
 fn main() {
     let args: Vec<String> = std::env::args().collect();
-    let multi = matches!(args.get(1).map(|s| s.as_str()), Some("admission") | Some("default_timeouts") | Some("rpc_pairing"));
+    let multi = matches!(args.get(1).map(|s| s.as_str()), Some("admission") | Some("default_timeouts") | Some("rpc_pairing") | Some("history"));
     let rt = if multi {
         tokio::runtime::Builder::new_multi_thread().worker_threads(2).enable_all().build().unwrap()
     } else {
@@ -377,6 +427,7 @@ async fn run(args: Vec<String>) {
         "timeout_select" => timeout_select(&a).await,
         "auth" => auth(&a).await,
         "admission" => admission(&a).await,
+        "history" => history(&a).await,
         "rpc_pairing" => rpc_pairing(&a).await,
         "default_timeouts" => default_timeouts(&a).await,
         other => json!({"error": format!("unknown scenario {other}")}),
